@@ -219,10 +219,13 @@ func TestC07(t *testing.T) {
 	c.Rule = "histories in which 2-4 identical requests of every write kind share an idempotency key (pool of 2 keys): sequential, racing (choice lists over run.ik.taken, store lookup, execution, run.wait) and retried after a crash placed anywhere; side class: same key on different requests; callers that go away at the moment their entry is handed to the batcher; a failing batch insert (the process dies, the retry comes after the restart); one request held back while the others run. One case in 16 is parallel: 10-40 rounds of 2-8 real goroutines released together with the same keyed request against one real Commander. One case in 16 runs two ledgers of one bucket with keys used on both (the key lookup through the real SQL store): a key is a ledger's own. Oracle: <=1 entry per key; every success returns that entry's outcome. Non-trivial = >=2 same-key requests overlapping or straddling a restart; distinct by operations + gate trace."
 	c.Assumptions = []string{engineAssumption}
 	cfg := enginesim.DefaultConfig()
-	cfg.IKPool = []string{"", "k1", "k1", "k2", "k2", c07LongKey} // one key longer than any column or buffer is likely to be
+	cfg.IKPool = []string{"", "k1", "k1", "k2", "k2", c07LongKey, "k\xff"} // one key longer than any column or buffer is likely to be, one that is not valid UTF-8
 	cfg.Crashes = 1
 	cfg.SameIKIdentical = true
-	cfg.RefPool = []string{"", "", "r1"}
+	cfg.SharedNamePct = 15
+	cfg.DryRunPct = 15                                 // previews and refused requests come and go while a keyed write is still in flight
+	cfg.FailingPct = 10                                // (whatever they reserve and give back must be their own)
+	cfg.RefPool = []string{"", "k1", "k1", "k2", "r1"} // references spelled like the keys in use: the two kinds of reservation must not meet
 	cfg.ReadFaults = 2
 	cfg.Cancels = 1
 	cfg.Faults = 1         // a batch insert fails: the process dies, the retry comes after the restart
@@ -425,7 +428,7 @@ func TestC16(t *testing.T) {
 	cfg := enginesim.DefaultConfig()
 	cfg.DryRunPct = 25
 	cfg.FailingPct = 10
-	cfg.IKPool = []string{"", "", "k1", "k1", "k2"}
+	cfg.IKPool = []string{"", "", "k1", "k1", "k2", "k\xff"} // (one key that is not valid UTF-8)
 	cfg.SameIKIdentical = true
 	cfg.ReadFaults = 1
 	cfg.Cancels = 3
